@@ -277,6 +277,9 @@ func (env *SpecEnv) ident(name string) Val {
 		if g, ok := env.st.ghost[name]; ok {
 			return g
 		}
+		if p, ok := env.fr.entryParams[name]; ok {
+			return p
+		}
 	}
 	if env.st != nil {
 		if g, ok := env.st.ghost[name]; ok {
